@@ -329,4 +329,138 @@ def genesisWallet (C : Content) : Wallet :=
   { syncedTo := stampOf C [], hashes := upd (fun _ => none) 0 (some (some [])), birthdaySet := true,
     birthday := (0, some []), mined := [], unmined := [], chainSynced := true }
 
+/-! ### The notification server (wallet/notifications.go) with one registered `TransactionNotifications` client
+
+`connectBlock` calls `notifyAttachedBlock` after a successful `SetSyncedTo`; `disconnectBlock` calls
+`notifyDetachedBlock(&b.Hash)` on every path that returns nil while the wallet is chain-synced (also when the block
+was not the wallet's: stale, repeated or above the tip); `addRelevantTx` calls `notifyMinedTransaction` /
+`notifyUnminedTransaction` for a transaction that was not recorded yet.  The server coalesces everything into
+`currentTxNtfn` and delivers it from `notifyAttachedBlock` — while the wallet is chain-synced only once the
+notification holds more attached than detached blocks.  `currentTxNtfn` is plain memory: it is not rolled back when
+the surrounding database transaction fails.
+
+The layer is kept outside `Wallet` (it never influences the wallet state): `notify cfg w s n` is the server after
+the handler processed `n` in wallet state `w`. -/
+
+/-- `wallet.Block` of a `TransactionNotifications`: height, hash, ids of the transactions reported in it. -/
+structure NBlock where
+  height : Nat
+  hash   : Hash
+  txs    : List Nat
+deriving DecidableEq, Repr
+
+/-- `wallet.TransactionNotifications`: attached blocks (in the order mined), detached block hashes (tip first),
+    newly added unmined transactions. -/
+structure TxNtfn where
+  attached : List NBlock := []
+  detached : List Hash := []
+  unmined  : List Nat := []
+deriving DecidableEq, Repr
+
+structure NSrv where
+  cur  : Option TxNtfn := none    -- NotificationServer.currentTxNtfn
+  sent : List TxNtfn := []        -- delivered to the client, oldest first
+deriving Repr
+
+def NSrv.curD (s : NSrv) : TxNtfn := s.cur.getD {}
+
+/-- `if n == 0 || *AttachedBlocks[n-1].Hash != block.Hash { append }`. -/
+def attachEntry (n : TxNtfn) (b : Stamp) : TxNtfn :=
+  match n.attached.getLast? with
+  | some l => if l.hash = b.hash then n else { n with attached := n.attached ++ [⟨b.height, b.hash, []⟩] }
+  | none => { n with attached := [⟨b.height, b.hash, []⟩] }
+
+def addTxToLast : List NBlock → Nat → List NBlock
+  | [], _ => []
+  | [b], t => [{ b with txs := b.txs ++ [t] }]
+  | b :: c :: rest, t => b :: addTxToLast (c :: rest) t
+
+/-- `notifyMinedTransaction`. -/
+def notifyMined (s : NSrv) (t : Tx) (b : Stamp) : NSrv :=
+  let n := attachEntry s.curD b
+  { s with cur := some { n with attached := addTxToLast n.attached t.id } }
+
+/-- `notifyUnminedTransaction`: its own notification, `currentTxNtfn` untouched. -/
+def notifyUnmined (s : NSrv) (t : Tx) : NSrv := { s with sent := s.sent ++ [{ unmined := [t.id] }] }
+
+/-- `notifyAttachedBlock` (`synced` = `wallet.ChainSynced()`). -/
+def notifyAttached (synced : Bool) (s : NSrv) (b : Stamp) : NSrv :=
+  let n := attachEntry s.curD b
+  if synced && decide (n.attached.length ≤ n.detached.length) then { s with cur := some n }
+  else { cur := none, sent := s.sent ++ [n] }
+
+/-- `notifyDetachedBlock`. -/
+def notifyDetached (s : NSrv) (h : Hash) : NSrv :=
+  let n := s.curD
+  { s with cur := some { n with detached := n.detached ++ [h] } }
+
+/-- `InsertTxCheckIfExists` reports the transaction as already recorded (`addRelevantTx` returns early). -/
+def txKnown (w : Wallet) (t : Tx) : Option Stamp → Bool
+  | some b => w.mined.any (fun r => r.tx.id == t.id && r.height == b.height && r.hash == b.hash)
+  | none => w.mined.any (fun r => r.tx.id == t.id) || w.unmined.any (fun x => x.id == t.id)
+
+def txNotify (w : Wallet) (s : NSrv) (t : Tx) (blk : Option Stamp) : NSrv :=
+  if txKnown w t blk then s
+  else match blk with
+    | some b => notifyMined s t b
+    | none => notifyUnmined s t
+
+/-- wallet and server side by side for one relevant transaction -/
+def txStepN (blk : Option Stamp) (p : Wallet × NSrv) (t : Tx) : Wallet × NSrv :=
+  (addRelevantTx p.1 t blk, txNotify p.1 p.2 t blk)
+
+/-- The server after `handleChainNotifications` processed `n` in wallet state `w`. -/
+def notify (cfg : Cfg) (w : Wallet) (s : NSrv) : Ntfn → NSrv
+  | .connected b =>
+    match connectBlock cfg.W w b with
+    | .ok _ => notifyAttached w.chainSynced s b
+    | .error _ => s
+  | .disconnected b =>
+    if w.chainSynced = false then s
+    else match disconnectBlock cfg w b with
+      | .ok _ => notifyDetached s b.hash
+      | .error _ => s
+  | .relevantTx t blk => txNotify w s t blk
+  | .filtered b ts => (ts.foldl (txStepN (some b)) (w, s)).2
+  | .rescanFinished _ _ => s
+
+def handleN (cfg : Cfg) (p : Wallet × NSrv) (n : Ntfn) : Wallet × NSrv := (handle cfg p.1 n, notify cfg p.1 p.2 n)
+
+def processN (cfg : Cfg) (p : Wallet × NSrv) (ns : List Ntfn) : Wallet × NSrv := ns.foldl (handleN cfg) p
+
+/-- `recoveryBatch` with the server: the notifications of the recorded transactions stay in `currentTxNtfn` even
+    when the batch's database transaction fails. -/
+def recoveryBatchN (cfg : Cfg) (p : Wallet × NSrv) (blocks : List BlockId) : Except Err Wallet × NSrv :=
+  let p1 := blocks.foldl (fun p b =>
+      if p.1.birthday.1 ≤ b.length then (cfg.C.txs b).foldl (txStepN (some (stampOf cfg.C b))) p else p) p
+  (blocks.foldlM (fun w b => putSyncedTo cfg.W w (stampOf cfg.C b)) p1.1, p1.2)
+
+def recoveryRunN (cfg : Cfg) (batch : Nat) (tip : BlockId) : Nat → Wallet × NSrv → (Wallet × NSrv) × Bool
+  | 0, p => (p, true)
+  | fuel + 1, p =>
+    let from_ := p.1.syncedTo.height + 1
+    if from_ > tip.length then (p, true)
+    else
+      let n := min (max batch 1) (tip.length + 1 - from_)
+      match recoveryBatchN cfg p (blocksFrom tip from_ n) with
+      | (.error _, s') => ((p.1, s'), false)
+      | (.ok w', s') => recoveryRunN cfg batch tip fuel (w', s')
+
+/-- `startupDuring` with the server of the freshly opened wallet (`currentTxNtfn = nil`, client registered before
+    `SynchronizeRPC`). -/
+def startupDuringN (cfg : Cfg) (recW batch : Nat) (w : Wallet) (tip : BlockId) (during : List Ntfn) :
+    (Wallet × NSrv) × Bool :=
+  let w0 := { w with chainSynced := false }
+  match startupRollback cfg w0 tip with
+  | .error _ => ((w0, {}), false)
+  | .ok w1 =>
+    let (p2, ok) := if recW > 0 then recoveryRunN cfg batch tip (tip.length + 1) (w1, {}) else ((w1, {}), true)
+    if ok = false then (p2, false)
+    else (processN cfg p2 (rescanTxNtfns cfg.C tip p2.1.syncedTo.height ++ during ++ [.rescanFinished tip tip.length]), true)
+
+/-- Run an evolution with the server. -/
+def evolveN (cfg : Cfg) : (Wallet × NSrv) × BlockId → List Step → (Wallet × NSrv) × BlockId
+  | s, [] => s
+  | (p, tip), st :: rest => evolveN cfg (processN cfg p (ntfnsOf cfg.C tip st), stepTip tip st) rest
+
 end SyncTip
